@@ -114,6 +114,11 @@ class BaseSDESolver(metaclass=better_abc.ABCMeta):
         for out_t in ts[1:]:
             while curr_t < out_t:
                 next_t = min(curr_t + step_size, ts[-1])
+                if ts[-1] - next_t < 1e-6 * step_size:
+                    # Floating point accumulation in `curr_t` can leave us a hair short of `ts[-1]`; stepping there now
+                    # avoids finishing with an extra step of negligible length (which e.g. reversible solvers would
+                    # not retrace on the backward pass).
+                    next_t = ts[-1]
                 if self.adaptive:
                     # Take 1 full step.
                     next_y_full, _ = self.step(curr_t, next_t, curr_y, curr_extra)
